@@ -172,7 +172,7 @@ def run(ctx, report: Report) -> None:
     lang_filter_table(ctx, r7, deep=ctx.tier == 'thorough')
 
     # ---- R8 (the whole pipeline by interpretation, bounded) --------------------------------------------------------------
-    r8 = report.rule('C13-R8', ':lang() on XHTML / XML / HTML-with-pragma trees (whole pipeline; bounded)', floor=10)
+    r8 = report.rule('C13-R8', ':lang() on XHTML / XML / HTML-with-pragma trees (whole pipeline; bounded)', floor=11)
     from .e2ematch import lang_pipeline_table
     lang_pipeline_table(ctx, r8)
 
